@@ -1,7 +1,7 @@
 from vlib.core import *
 
 META = dict(
-    level_text="Bookkeeping of LOBPCGSolver::compute proved for ALL kernels (every outcome of the LDLT orthonormalisation, of the dense EigenSolver, of the inner SymGEigsSolver, every preconditioner, every column-norm test), A* and B* only assumed linear over a commutative ring: the tracked products AX = A X, BX = B X, AD = A D, BD = B D are loop invariants for every coefficient block (c17_products), residuals() = A X - B X diag(eigenvalues) for the INTERNAL iterate (c17_residuals), a Gram-B-orthonormal coefficient matrix yields X'BX = I for the update X C_X + R C_R + D C_D (c17_borth, c17_update_concat), info = Success iff every residual column passed sqrt(sum r^2) < tol_div_n*n for an object whose info was not already Success (c17_success_tol, c17_status, exits enumerated in c17_status_exits), X keeps k columns (c17_shape_partial), the inner solver's constructor guard (regenerated from HermEigsBase.h) fails exactly when k >= 10 or rows <= k+1 (c17_inner_guard). Three clauses are FALSE for the code as written and recorded as findings with model witnesses and replays: eigenvectors() returns the Ritz coefficient matrix (F10), compute() throws for k = 1 / k >= 10 / one unconverged column in iteration 0 (C17-inner-ncv), m_info is never reset (C17-stale-info). That the values are the k SMALLEST of the pencil is convergence: oracle only.",
+    level_text="Bookkeeping of LOBPCGSolver::compute proved for ALL kernels (every outcome of the LDLT orthonormalisation, of the dense EigenSolver, of the inner SymGEigsSolver, every preconditioner, every column-norm test), A* and B* only assumed linear over a commutative ring: the tracked products AX = A X, BX = B X, AD = A D, BD = B D are loop invariants for every coefficient block (c17_products), residuals() = A X - B X diag(eigenvalues) for the iterate (c17_residuals), a Gram-B-orthonormal coefficient matrix yields X'BX = I for the update X C_X + R C_R + D C_D (c17_borth, c17_update_concat, c17_step_update), eigenvectors() IS that iterate and has k columns (c17_shape, full strength since the repair of F10), info = Success iff every residual column passed sqrt(sum r^2) < tol_div_n*n for EVERY prior object state (c17_success_tol, c17_status, c17_nonsuccess_reported; exits enumerated in c17_status_exits; an exhausted loop reports NoConvergence: c17_exhausted_noconvergence, since the repair of C17-stale-info), the inner solver's constructor guard (regenerated from HermEigsBase.h) holds on every Gram pencil the loop builds, for every k >= 1 (c17_inner_guard, c17_inner_guard_holds, c17_throw_only_numeric, since the repair of C17-inner-ncv), eigenvalues() ascending for distinct kernel outputs (c17_ascending_partial, c17_sorted_partial), removed-column indices fit every block (c17_directions_width, c17_removed_width). One recorded finding remains: a rare one-step loss of B-orthonormality that is never repaired (C17-borth-drift). That the values are the k SMALLEST of the pencil is convergence: oracle only.",
     note="Lean kernel + propext/Classical.choice/Quot.sound; the numeric inner solvers (SimplicialLDLT, EigenSolver, SymGEigsSolver = C03) enter as arbitrary functions in the theorems and as recorded outputs in the correspondence; a C++ shadow of compute() built from the class's own private methods supplies those records and must equal the real object bit for bit at every cut; exact-arithmetic reading of the invariants (rounding makes AX drift from A X: bounded by the oracle, not proved); setConstraints not modelled",
     technique="Lean 4 proof (list induction, module/linear-map algebra) on a hand-written executable model generic in scalar, column type and kernels + differential correspondence at every iteration cut + long-double oracle",
     design="§5 C17", harnesses=['c17'])
@@ -29,7 +29,7 @@ def run(tier, seed, replay=None):
                          'distinct request lines counted')
         R.cov['exhaustive'] = False
         hc = R.cov.get('harness_counters', {})
-        tags = {'exit converged / exhausted (info_0 / info_3)': 'c17:info_0', 'exit orthRFailed (LDLT of R\'BR fails)': 'c17:exit_orthR_failed', 'exit rrThrew (inner ctor guard)': 'c17:exit_threw',
+        tags = {'exit converged / exhausted (info_0 / info_3)': 'c17:info_0', 'exit orthRFailed (LDLT of R\'BR fails)': 'c17:exit_orthR_failed', 'exit rrThrew (inner solver throws)': 'c17:exit_threw',
                 'exit orthDFailed (LDLT of D\'BD fails)': 'c17:exit_orthD_failed', 'exit rrFailed (inner solver not converged)': 'c17:exit_rr_notconverged',
                 'iteration with removed (converged) columns': 'c17:iter_with_removed_columns', 'sort_epairs with tied keys': 'c17:sortep_ties'}
         R.cov['model_branches_reached'] = sorted(k for k, v in tags.items() if hc.get(v, 0) > 0)
